@@ -321,11 +321,18 @@ func (fc *FCtx) specEval(n *SNode, env *Env) Val {
 		if n.Op == "forall" {
 			inner := implies(and(guards...), body)
 			if len(n.Args) > 1 {
+				var groups []string
 				var ps []string
 				for _, tn := range n.Args[1:] {
+					if tn.Op == "trigsep" {
+						groups = append(groups, fmt.Sprintf(":pattern (%s)", strings.Join(ps, " ")))
+						ps = nil
+						continue
+					}
 					ps = append(ps, fc.specEval(tn, e2).T)
 				}
-				inner = fmt.Sprintf("(! %s :pattern (%s))", inner, strings.Join(ps, " "))
+				groups = append(groups, fmt.Sprintf(":pattern (%s)", strings.Join(ps, " ")))
+				inner = fmt.Sprintf("(! %s %s)", inner, strings.Join(groups, " "))
 			}
 			return Val{T: fmt.Sprintf("(forall (%s) %s)", strings.Join(bs, " "), inner), S: SBool}
 		}
